@@ -202,6 +202,8 @@ def run_one(tape):
               break
   for v in viols:
     v['details']['concurrent_reader'] = bool(spec['watcher'])
+    mname = v['details'].get('measurement')
+    v['details']['dimensioned'] = bool(dims.get(mname)) if (failed is None and rec is not None and mname) else None
   return {
       'violations': viols[:1], 'digest': sim.digest(), 'sched': sim.sched_digest(),
       'nontrivial': bool(probes), 'faults': {}, 'probes': probes, 'steps': sim.steps, 'switches': sim.switches,
